@@ -569,8 +569,75 @@ def rule_R09_5(ctx):
     return r
 
 
+def _char_consts_into(f, operand, depth=0, seen=None):
+    """`char` constants on the intraprocedural definition chain of an
+    operand (copies, moves, `Some(..)`/tuple aggregates, casts); a projected
+    read (the payload of the iterator's `next()`) or a call ends a chain."""
+    seen = seen if seen is not None else set()
+    out = []
+    if not mir.is_place_operand(operand):
+        c = mir.op_const(operand)
+        if (c.get("ty") or "") == "char":
+            out.append(repr(c.get("v", c.get("pp"))))
+        return out
+    pl = mir.op_place(operand)
+    if pl[1] or pl[0] in seen or depth > 12:
+        return out
+    seen.add(pl[0])
+    for (bb, idx, kind, payload) in f.defs().get(pl[0], []):
+        if kind != "rv":
+            continue
+        rv = payload
+        if rv[0] in ("use", "cast") and len(rv) > 1:
+            out.extend(_char_consts_into(f, rv[1], depth + 1, seen))
+        elif rv[0] == "agg":
+            for o in rv[2]:
+                out.extend(_char_consts_into(f, o, depth + 1, seen))
+    return out
+
+
+def rule_R09_6(ctx, rule_id="R09.6"):
+    """The scanner hands the lexer the characters of the source, unchanged:
+    the `char` it stores as its current character only ever comes out of the
+    character iterator.  A constant stored there (CR LF folded into `\n`, a
+    tab expanded, a NUL replaced) rewrites the *content* of string literals
+    and changes which bytes separate tokens."""
+    prog = ctx.prog
+    r = RuleResult(rule_id, "the scanner never fabricates a character: no `char` "
+                   "constant flows into its current-character field",
+                   "a normalised character (CRLF -> LF, ..) changes string "
+                   "literals that contain it: the literal no longer denotes "
+                   "exactly its characters, and the same text written with "
+                   "`\\xHH` escapes compares different")
+    n = 0
+    for f in prog.hand_fns():
+        if f.from_expansion or f.generated or not f.module.startswith("lexer"):
+            continue
+        for bb, i, pl, rv, sp in f.assigns():
+            if not pl[1] or pl[1][-1] == "*" or pl[1][-1][0] != "f":
+                continue
+            last = pl[1][-1]
+            if len(last) < 3 or last[2] != "std::option::Option<char>":
+                continue
+            n += 1
+            ops_ = [rv[1]] if rv[0] == "use" else (list(rv[2]) if rv[0] == "agg" else [])
+            cs = []
+            for o in ops_:
+                cs.extend(_char_consts_into(f, o))
+            if cs:
+                r.fail("%s | constant character %s stored as the current character" % (f.path, ",".join(sorted(set(cs)))),
+                       "%s stores the constant %s into `%s`: the lexer then "
+                       "sees a character the source does not contain at that "
+                       "position" % (f.path, ", ".join(sorted(set(cs))), last[3]), where=mir.span_loc(sp))
+            else:
+                r.ok()
+    r.inst("stores into an `Option<char>` field of a lexer struct: %d" % n)
+    r.require_floor("stores into the scanner's current-character field", n, 1)
+    return r
+
+
 def run(ctx):
-    return [rule_R09_1(ctx), rule_R09_2(ctx), rule_R09_3(ctx), rule_R09_4(ctx), rule_R09_5(ctx)]
+    return [rule_R09_1(ctx), rule_R09_2(ctx), rule_R09_3(ctx), rule_R09_4(ctx), rule_R09_5(ctx), rule_R09_6(ctx)]
 
 
 META = {
